@@ -340,6 +340,7 @@ theorem parseSeq_flat (m : Mode) (hnf : m.filenames = false) : ∀ (n : Nat) (a 
       have hlen : rest.length ≤ n := by simp at ha; omega
       have hf' : rest.length < f := by simp at hf; omega
       rw [parseSeq_cons]
+      simp only [litTok_nofn hnf]
       by_cases hbs : c = cBS
       · subst hbs
         cases rest with
@@ -752,6 +753,7 @@ theorem top_agree_ext (m : Mode) (hx : m.ext = true) (hnf : m.filenames = false)
       rw [supp_cons] at hs
       rw [flatGroups_cons] at hfl
       rw [parseSeq_cons]
+      simp only [litTok_nofn hnf]
       by_cases hbs : c = cBS
       · subst hbs
         simp only [if_true] at hs hfl ⊢
@@ -774,7 +776,7 @@ theorem top_agree_ext (m : Mode) (hx : m.ext = true) (hnf : m.filenames = false)
             simp [e5, e1, e2]
           rw [topLoop_tok hn]
           refine TopAgree.cons rfl ?_ (ih _ d rest' fP fT fF (by simp at hP'; omega) (by simp at hT'; omega)
-            (by simp at htot'; omega) hs hfl)
+            (by simp at htot'; omega) (by simpa [hnf] using hs) hfl)
           intro b s
           rw [matches_chr_iff]; simp [GDen]
       · simp only [hbs, if_false, hx, Bool.true_and] at hs hfl ⊢
@@ -935,7 +937,7 @@ theorem top_agree_ext (m : Mode) (hx : m.ext = true) (hnf : m.filenames = false)
                   rw [hfuel, next_cons]
                   simp [hcond, hbs, hq, hst, hlb]
                 rw [topLoop_tok hn]
-                refine TopAgree.cons rfl ?_ (ih _ c rest fP fT fF hP' hT' htot' hs hfl)
+                refine TopAgree.cons rfl ?_ (ih _ c rest fP fT fF hP' hT' htot' (by simpa [hnf] using hs) hfl)
                 intro b s
                 rw [matches_chr_iff]; simp [GDen]
 
